@@ -568,3 +568,62 @@ package types
 //@   requires[C09] shapeOK(type1) && shapeOK(type2) && envTypesOK(labelledTypesEnv)
 //@ contract interface SessionType.Modality(self)
 //@   ensures[C09] C09.modeNN: result != nil
+
+// ---- C09: what the later phases of the typechecker rely on. A type that passed the well-formedness checks is
+// `ready`: it can be unfolded, printed, compared, and asked for its (valid) mode without a crash, and so can its
+// components. rmodes states the mode discipline parent-to-child (the same facts as modesOK, arranged so that the
+// readiness of a component is one unfolding away).
+//@ macro kidModes(c SessionType, m Modality, D Set[string], V Arr[string]LabelledType) bool = rmodes(c, D, V) && base(modeOf(c)) && tag(modeOf(c)) == tag(m)
+//@ spec rmodes(t SessionType, D Set[string], V Arr[string]LabelledType) bool = base(modeOf(t)) &&
+//@    (is(t, LabelType) ==> D[LabelType(t).Label] && tag(LabelType(t).Mode) == tag(V[LabelType(t).Label].Mode)) &&
+//@    (is(t, SendType) ==> kidModes(SendType(t).Left, SendType(t).Mode, D, V) && kidModes(SendType(t).Right, SendType(t).Mode, D, V)) &&
+//@    (is(t, ReceiveType) ==> kidModes(ReceiveType(t).Left, ReceiveType(t).Mode, D, V) && kidModes(ReceiveType(t).Right, ReceiveType(t).Mode, D, V)) &&
+//@    (is(t, SelectLabelType) ==> (forall k int :: 0 <= k && k < len(SelectLabelType(t).Branches) ==> kidModes(SelectLabelType(t).Branches[k].SessionType, SelectLabelType(t).Mode, D, V))) &&
+//@    (is(t, BranchCaseType) ==> (forall k int :: 0 <= k && k < len(BranchCaseType(t).Branches) ==> kidModes(BranchCaseType(t).Branches[k].SessionType, BranchCaseType(t).Mode, D, V))) &&
+//@    (is(t, UpType) ==> base(UpType(t).From) && ge(UpType(t).To, UpType(t).From) && kidModes(UpType(t).Continuation, UpType(t).From, D, V)) &&
+//@    (is(t, DownType) ==> base(DownType(t).From) && ge(DownType(t).From, DownType(t).To) && kidModes(DownType(t).Continuation, DownType(t).From, D, V))
+//@ macro ready(t SessionType, D Set[string], V Arr[string]LabelledType) bool = t != nil && shapeOK(t) && labelsOK(t, D) && rmodes(t, D, V)
+//@ macro readyEnv(D Set[string], V Arr[string]LabelledType) bool = forall n string :: D[n] ==> V[n].Mode != nil && ready(V[n].Type, D, V) && contractive(V[n].Type, V, emptyStrSet)
+
+// A mode that is set is never overwritten, and a ready type has all its modes set: readiness survives the filling
+// in of modes elsewhere (proved once, by induction on the size of the type, for arbitrary pairs of heaps).
+//@ lemma C09.modeOfStable: forall t SessionType :: t != nil && modesKept() && old(base(modeOf(t))) ==> modeOf(t) == old(modeOf(t))
+//@ lemma C09.rmodesStable: forall t SessionType, D Set[string], V Arr[string]LabelledType :: shapeOK(t) && modesKept() && old(rmodes(t, D, V)) ==> rmodes(t, D, V) by induction on size(t)
+
+//@ contract interface SessionType.checkTypeModalities(self, env, cur)
+//@   ensures[C09] C09.rmodes: result == nil ==> rmodes(self, dom(env), vals(env)) && tag(modeOf(self)) == tag(cur)
+//@ contract (*SelectLabelType).checkTypeModalities
+//@   loop[C09] 1 invariant forall k int :: 0 <= k && k <= idx ==> kidModes(q.Branches[k].SessionType, currentMode, dom(labelledTypesEnv), vals(labelledTypesEnv))
+//@ contract (*BranchCaseType).checkTypeModalities
+//@   loop[C09] 1 invariant forall k int :: 0 <= k && k <= idx ==> kidModes(q.Branches[k].SessionType, currentMode, dom(labelledTypesEnv), vals(labelledTypesEnv))
+//@ contract CheckTypeWellFormedness
+//@   ensures[C09] C09.wfReady: result == nil ==> ready(t, dom(labelledTypesEnv), vals(labelledTypesEnv))
+//@ contract SanityChecksType
+//@   ensures[C09] C09.typesReady: result == nil ==> (forall k int :: 0 <= k && k < len(types) ==> ready(types[k], defNames(typesDefs, len(typesDefs)), defVals(typesDefs, len(typesDefs))))
+//@   loop[C09] 1 invariant forall k int :: 0 <= k && k <= idx ==> ready(types[k], dom(labelledTypesEnv), vals(labelledTypesEnv))
+//@ contract SanityChecksTypeDefinitions
+//@   ensures[C09] C09.defsReady: result == nil ==> (forall k int :: 0 <= k && k < len(typesDefs) ==> ready(typesDefs[k].SessionType, defNames(typesDefs, len(typesDefs)), defVals(typesDefs, len(typesDefs))))
+//@   loop[C09] 2 invariant forall k int :: 0 <= k && k <= idx ==> ready(typesDefs[k].SessionType, dom(labelledTypesEnv), vals(labelledTypesEnv))
+
+// filling in modes never overwrites a mode that is set
+//@ contract interface SessionType.assignUnsetModalities(self, env, cur)
+//@   ensures[C09] C09.assignKept: modesKept()
+//@ contract (*SelectLabelType).assignUnsetModalities
+//@   loop[C09] 1 invariant modesKept()
+//@ contract (*BranchCaseType).assignUnsetModalities
+//@   loop[C09] 1 invariant modesKept()
+//@ contract AddMissingModalities
+//@   ensures[C09] C09.addKept: modesKept()
+
+// unfolding a ready type yields a ready structural type, and terminates: the names followed have decreasing rank.
+// (envRank: if every definition is contractive, the number of name-to-name steps from a definition to a structural
+// type is a rank; existence is the only thing assumed.)
+//@ macro contractiveEnv(D Set[string], V Arr[string]LabelledType) bool = forall n string :: D[n] ==> contractive(V[n].Type, V, emptyStrSet)
+//@ spec envRank(D Set[string], V Arr[string]LabelledType) Arr[string]int where (closedEnv(D, V) && contractiveEnv(D, V)) ==>
+//@    (forall n string :: D[n] ==> result[n] >= 0 && (is(V[n].Type, LabelType) ==> result[LabelType(V[n].Type).Label] < result[n]))
+//@ macro rankTy(t SessionType, D Set[string], V Arr[string]LabelledType) int = ite(is(t, LabelType), envRank(D, V)[LabelType(t).Label] + 1, 0)
+//@ contract Unfold
+//@   requires[C09] orig != nil && labelsOK(orig, dom(labelledTypesEnv)) ==> closedEnv(dom(labelledTypesEnv), vals(labelledTypesEnv)) && contractiveEnv(dom(labelledTypesEnv), vals(labelledTypesEnv))
+//@   ensures[C09] C09.unfoldReady: orig != nil && ready(orig, dom(labelledTypesEnv), vals(labelledTypesEnv)) && readyEnv(dom(labelledTypesEnv), vals(labelledTypesEnv)) ==> ready(result, dom(labelledTypesEnv), vals(labelledTypesEnv))
+//@   ensures[C09] C09.unfoldNil: orig == nil ==> result == nil
+//@   decreases[C09] rankTy(orig, dom(labelledTypesEnv), vals(labelledTypesEnv))
